@@ -160,6 +160,8 @@ type Gen struct {
 	trustedUsed map[string]bool
 	sinkRefs    map[string]bool      // identities of byte sinks that exist at entry (io.Writer parameters)
 	bindingParams bool // true while the parameters of the function under verification are being bound
+	retReach    map[int][]string // per ensures clause: pc && antecedent at every return reached
+	cpReach     map[int][]string // per callpre clause: pc at every call it was checked at
 	clauseBound map[string]bool      // callpre/ghostset/observe clauses that matched at least one call
 	clauseEval  map[string]bool      // callpre clauses that were evaluated (all their names in scope) at some call
 	secReaders  map[string][3]string // *io.SectionReader term -> (ReaderAt identity, offset, length)
